@@ -353,7 +353,9 @@ def classify_density(case):
     try:
         raw, _ = _raw_totals(case)
         m = raw.mean()
-        if not np.isfinite(m) or abs(m) <= 1e-12 * max(np.abs(raw).max(), 1e-300):
+        # only a finite mean of (numerically) zero is the known 0/0 situation; a non-finite raw
+        # estimate is not
+        if np.isfinite(m) and np.all(np.isfinite(raw)) and abs(m) <= 1e-12 * max(np.abs(raw).max(), 1e-300):
             return "zero_grid_mean"
     except Exception:  # noqa: BLE001
         pass
@@ -370,6 +372,21 @@ def check_density_known_sparse(case):
     require(float((Xg**2 + Yg**2).max()) <= 1 + 1e-12, "grid point outside the closed unit disk")
     require(np.all(np.isnan(T)) or (np.all(np.isfinite(T)) and T.min() >= 0), "estimates are neither all-NaN (known 0/0) nor valid")
     return {"nontrivial": False, "labels": ["known_sparse"], "residual": 0.0}
+
+
+def check_density_any(case):
+    """Many-data cases run every kernel on the same data (a kernel in the known 0/0 situation
+    is checked against the known-behaviour model, exactly as a generated case of that class)."""
+    if not case.get("all_kernels"):
+        return check_density(case)
+    info = None
+    for k in KERNELS:
+        sub = dict(case, kernel=k, all_kernels=False)
+        r = check_density_known_sparse(sub) if classify_density(sub) == "zero_grid_mean" else check_density(sub)
+        info = r if info is None or r.get("nontrivial") else info
+    info = dict(info)
+    info["labels"] = list(info.get("labels", [])) + ["all_kernels_many_data"]
+    return info
 
 
 ORACLES = [
@@ -419,12 +436,27 @@ ORACLES = [
     ),
     Oracle(
         "point_density",
-        density_case(),
-        check_density,
+        # one case in six: thousands of data on a coarse grid (the kernels' parameters depend on
+        # n / sigma^2)
+        st.one_of(
+            density_case(),
+            density_case(),
+            st.builds(
+                lambda c, n, g, sg: dict(c, n=n, grid=g, sigma=sg, all_kernels=True),
+                density_case(),
+                st.one_of(st.integers(3000, 40000), st.sampled_from([3200, 3500, 36000, 40000])),
+                st.integers(5, 13),
+                st.sampled_from([3.0, 5.0, 10.0]),
+            ),
+            density_case(),
+            density_case(),
+            density_case(),
+        ),
+        check_density_any,
         classify=classify_density,
         known_models={"zero_grid_mean": check_density_known_sparse},
-        quick=80,
-        thorough=400,
+        quick=96,
+        thorough=600,
     ),
 ]
 SHARDS = {"quick": 4, "thorough": 16}
